@@ -95,3 +95,11 @@ Definition inst_session (c : cfg) (input : bytes) (script : list behaviour) : li
   session inst_T inst_K c input script.
 
 Definition default_versions : list (Z * Z) := gen_default_versions.
+
+(* ---------- client and TLS instances ---------- *)
+Require Import Client TLS.
+Definition inst_send (c : ccfg) (op : N) (payload : val) (reply : bytes) := send inst_T inst_K c op payload reply.
+Definition inst_discover_versions (c : ccfg) (offer : list (Z * Z)) (reply : bytes) :=
+  discover_versions inst_T inst_K c offer reply.
+Definition inst_server_tls : option tlscfg := apply_assignments gen_DefaultServerTLSConfig zero_server_cfg.
+Definition inst_client_tls : option tlscfg := apply_assignments gen_DefaultClientTLSConfig zero_client_cfg.
